@@ -834,8 +834,10 @@ inline uint StringDictionaryRPHTFC::decodeString(uchar *str, uint *strLen,
 
   uint rule;
 
-  // The VByte is firstly extracted
-  while (read < 2) {
+  // The VByte is firstly extracted: two bytes at least, and every byte of a
+  // longer VByte (its last byte is the first one with the high bit set)
+  uint vbend = 0;
+  while ((read < 2) || (vbend == read)) {
     *ptr += decodeSymbol(&rule, *ptr, offset);
 
     if (rule >= rp->terminals)
@@ -844,6 +846,9 @@ inline uint StringDictionaryRPHTFC::decodeString(uchar *str, uint *strLen,
       vb[read] = (uchar)rule;
       read++;
     }
+
+    while ((vbend < read) && !(vb[vbend] & 0x80))
+      vbend++;
   }
 
   uint shared;
